@@ -2,13 +2,19 @@
 # Regression over every stored seeded change: apply it to a scratch worktree of /repo HEAD, run the property's quick
 # check against that tree (in a scratch copy of /verif, ZEPID_REPO=<worktree>), record caught / missed.
 # usage: tools/run_all_seeds.sh [seed-id ...]      -> writes seeded/RESULTS.md
+#        SHARD=k/N tools/run_all_seeds.sh          -> every N-th seed starting at k, writes seeded/RESULTS.k.md (own scratch
+#                                                     worktree and /verif copy, so that shards can run side by side);
+#        tools/merge_seed_results.py joins the shard tables into seeded/RESULTS.md
 set -u
-V=/verif; WT=/tmp/wt-all; OUT=$V/seeded/RESULTS.md
+V=/verif; K=""; N=1
+if [ -n "${SHARD:-}" ]; then K=${SHARD%/*}; N=${SHARD#*/}; fi
+WT=/tmp/wt-all$K; MUTD=/tmp/verif-mut$K; OUT=$V/seeded/RESULTS${K:+.$K}.md
 git -C /repo worktree remove --force $WT 2>/dev/null; git -C /repo worktree prune
 git -C /repo worktree add -q --detach $WT HEAD
-mkdir -p /tmp/verif-mut
-rsync -a --delete --exclude 'run/' --exclude '.git' --exclude 'replays/' $V/ /tmp/verif-mut/
+mkdir -p $MUTD
+rsync -a --delete --exclude 'run/' --exclude '.git' --exclude 'replays/' $V/ $MUTD/
 SEEDS="$@"; [ -z "$SEEDS" ] && SEEDS=$(ls -d $V/seeded/*/ | xargs -n1 basename)
+[ -n "$K" ] && SEEDS=$(echo $SEEDS | tr ' ' '\n' | awk -v k=$K -v n=$N 'NR % n == k % n')
 { echo "# Seeded changes vs. the current checks"; echo; echo "repo HEAD $(git -C /repo rev-parse --short HEAD), verif HEAD $(git -C $V rev-parse --short HEAD), $(date -u +%FT%TZ)"; echo;
   echo "| seed | property | result | violation keys (first 3) | wall |"; echo "|---|---|---|---|---|"; } > $OUT
 for id in $SEEDS; do
@@ -16,10 +22,10 @@ for id in $SEEDS; do
   git -C $WT checkout -q -- . ; git -C $WT clean -fdq
   if ! git -C $WT apply $d/patch.diff 2>/dev/null; then echo "| $id | $P | PATCH-DOES-NOT-APPLY | | |" >> $OUT; continue; fi
   t0=$(date +%s)
-  log=$(cd /tmp/verif-mut && rm -rf replays && ZEPID_REPO=$WT timeout 3000 ./check $P 2>&1)
+  log=$(cd $MUTD && rm -rf replays && ZEPID_REPO=$WT timeout 3000 ./check $P 2>&1)
   t1=$(date +%s)
   n=$(echo "$log" | grep -c '^VIOLATION')
-  keys=$(cd /tmp/verif-mut && ls replays/*.json 2>/dev/null | head -40 | xargs -r python3 -c "
+  keys=$(cd $MUTD && ls replays/*.json 2>/dev/null | head -40 | xargs -r python3 -c "
 import json,sys
 ks=[]
 for f in sys.argv[1:]:
@@ -30,4 +36,4 @@ print(', '.join(ks[:3]))" )
   echo "| $id | $P | $res | $keys | $((t1-t0))s |" >> $OUT
   echo "$id $P $res $((t1-t0))s"
 done
-git -C /repo worktree remove --force $WT; git -C /repo worktree prune
+git -C /repo worktree remove --force $WT; git -C /repo worktree prune; rm -rf $MUTD
